@@ -137,6 +137,29 @@ Theorem C03_mem_invariant_system_of_equations :
 Proof. exact (@soe_cache_correct). Qed.
 Print Assumptions C03_mem_invariant_system_of_equations.
 
+(* EigenSolve (sparse branch): do_solve is set by the first response and never cleared, so the shift-invert
+   factorisation used by every response is the one of the current shifted matrix *)
+Theorem C03_eigensolve_factorisation_current :
+  forall (K : Type) (F : Type) (factorise : list K -> F) (shifted : list (list K) -> list K) (sigma_nonzero : bool)
+         (eigs : F -> list (list K) -> list (list K))
+         (eig_adj : list (list K) -> list (list K) -> list (list K) -> list (option (list K)))
+         (ins : list ref) (outs : list nat),
+    cache_correct (eigensolve_h F factorise shifted sigma_nonzero eigs eig_adj ins outs) (None, false)
+                  (eigensolve_good F factorise shifted) (eigensolve_f F factorise shifted eigs)
+                  (fun xs ys ws => eig_adj xs ys ws).
+Proof. exact (@eigensolve_cache_correct). Qed.
+Print Assumptions C03_eigensolve_factorisation_current.
+
+(* Why "the matrix class is constant within a history" is assumed (agreed scope; LinearSolver.update documents "a new
+   matrix of the same structure"): LinSolve keeps `ishermitian` and the solver chosen from it from its FIRST matrix.
+   In the 2x2 integer instance a symmetric matrix followed by the non-symmetric [[1,2],[0,1]] with b = [3,1] is
+   answered [3,1] (lower triangle only) where a fresh module answers [1,1]. *)
+Theorem C03_linsolve_class_change_refuted :
+  s_st (run (fun _ => false) [flagged_linsolve_h] cls_hist cls_start) 2 = [3; 1]%Z /\
+  s_st (run (fun _ => false) [flagged_linsolve_h] cls_fresh cls_start) 2 = [1; 1]%Z.
+Proof. exact class_change_counterexample. Qed.
+Print Assumptions C03_linsolve_class_change_refuted.
+
 (* the hypotheses are met by the modules the correspondence runs on the real implementation *)
 Theorem C03_block_matrix_modules_meet_hypotheses :
   forall (dims : nat -> nat) (ins : list ref) (outs : list nat) (L : lin Z),
